@@ -8,8 +8,13 @@ namespace DriverC20
 
 structure St where
   stack : List LayerCfg
-  /-- admission state per layer (connections in flight / rate tokens left) -/
+  /-- admission state per layer (connections in flight / rate tokens left) of the default source "src" -/
   st : List Nat
+  /-- the counting layers keep their state per source (`connections[token]`, `bucketSets[source]`) and sources do not
+  interact (that independence is C14): the driver keeps one model state per source; `fresh` is the state of a source
+  that has not been seen yet (nothing in flight, full burst) -/
+  others : List (String × List Nat)
+  fresh : List Nat
   script : Script
   front : Caps
   ok : Bool
@@ -117,8 +122,14 @@ def initState (stack : List LayerCfg) (iv : Option Nat) : List (LayerCfg × Nat)
     | .ratelimit => if trip then (l, 0) else (l, 1000000)
     | _ => ({ l with tripped := trip }, 0)
 
+def freshState (stack : List LayerCfg) (iv : Option Nat) : List Nat :=
+  stack.mapIdx fun j l =>
+    match l.kind with
+    | .ratelimit => if iv == some j then 1 else 1000000
+    | _ => 0
+
 def init (f : List String) : St × String :=
-  let bad := (⟨[], [], ⟨none, [], [], 0, false, [], false⟩, Caps.real, false⟩, "bad-cfg")
+  let bad := (⟨[], [], [], [], ⟨none, [], [], 0, false, [], false⟩, Caps.real, false⟩, "bad-cfg")
   let front : Option Caps := match Driver.kv f "front" with
     | none | some "real" => some Caps.real
     | some "nohijack" => some Caps.noHijack
@@ -128,10 +139,10 @@ def init (f : List String) : St × String :=
   match parseStack ((Driver.kv f "stack").getD "-"), parseScript ((Driver.kv f "h").getD ""), front with
   | some stack, some sc, some fr =>
     match Driver.kv f "intervene" with
-    | none | some "none" => (⟨(initState stack none).map (·.1), (initState stack none).map (·.2), sc, fr, true⟩, "ok")
+    | none | some "none" => (⟨(initState stack none).map (·.1), (initState stack none).map (·.2), [], freshState stack none, sc, fr, true⟩, "ok")
     | some v =>
       match v.toNat? with
-      | some i => if i < stack.length then (⟨(initState stack (some i)).map (·.1), (initState stack (some i)).map (·.2), sc, fr, true⟩, "ok") else bad
+      | some i => if i < stack.length then (⟨(initState stack (some i)).map (·.1), (initState stack (some i)).map (·.2), [], freshState stack (some i), sc, fr, true⟩, "ok") else bad
       | none => bad
   | _, _, _ => bad
 
@@ -141,8 +152,11 @@ def step (st : St) : List String → St × String
     let req : Req := ⟨Driver.kvNat rest "body" 0⟩
     let abort := Driver.kv rest "abort" == some "1"
     let h : Req → Script := fun r => { st.script with headers := st.script.headers ++ [("X-Req-Len", toString r.bodyLen)] }
-    let (o, st') := serveSt st.stack st.st h req abort st.front
-    ({ st with st := st' },
+    let src := (Driver.kv rest "src").getD "src"
+    let cur := if src == "src" then st.st else ((st.others.find? (·.1 == src)).map (·.2)).getD st.fresh
+    let (o, cur') := serveSt st.stack cur h req abort st.front
+    ((if src == "src" then { st with st := cur' }
+      else { st with others := (src, cur') :: st.others.filter (·.1 != src) }),
       match o with
       | .served r => render (h req) r
       | .aborted k => s!"aborted invoked={k}")
